@@ -180,6 +180,9 @@ class ResetInterp:
             from .normalise import simplify_locals
             from .view import view
             node = simplify_locals(view(self.index, f)[0])
+            from .guards import walk_function
+            self._walks = getattr(self, '_walks', {})
+            self._walks[f.name] = (walk_function(node), f.module)
             b = node.body
             if b and isinstance(b[0], ast.Expr) and isinstance(b[0].value, ast.Constant) \
                     and isinstance(b[0].value.value, str):
@@ -247,6 +250,35 @@ class ResetInterp:
         return result
 
     def poslist(self, e: ast.AST, cx: Ctx) -> Optional[ListInfo]:
+        r = self._poslist(e, cx)
+        if r is None and isinstance(e, (ast.ListComp, ast.GeneratorExp)):
+            # second reading: any spelling of a scan of the grid (cellstream.py), rewritten to
+            # the comprehension over area.positions() the first reading understands
+            wk = getattr(self, '_walks', {}).get(getattr(self, '_fname', ''))
+            if wk is None:
+                return None
+            from .cellstream import StreamReader
+            import copy
+            try:
+                st = StreamReader(self.index, wk[1], wk[0]).read(e)
+            except Exception:       # noqa: BLE001 - only a second opinion
+                st = None
+            if st is not None and st.kind == 'cells' and st.grid in ('grid', 'state.grid'):
+                class Back(ast.NodeTransformer):
+                    def visit_Name(self, n):
+                        if n.id == 'O':
+                            return ast.parse(f'{st.grid}[_p]', mode='eval').body
+                        if n.id == 'P':
+                            return ast.Name('_p', ast.Load())
+                        return n
+                conds = [Back().visit(copy.deepcopy(c)) for c in st.filters]
+                comp = ast.ListComp(ast.Name('_p', ast.Load()), [ast.comprehension(
+                    ast.Name('_p', ast.Store()),
+                    ast.parse(f'{st.grid}.area.positions()', mode='eval').body, conds, 0)])
+                return self._poslist(ast.fix_missing_locations(comp), cx)
+        return r
+
+    def _poslist(self, e: ast.AST, cx: Ctx) -> Optional[ListInfo]:
         if isinstance(e, ast.Name):
             v = cx.env.get(e.id)
             if isinstance(v, tuple) and v[0] == 'list':
@@ -512,6 +544,19 @@ class ResetInterp:
                 return None
         tl = self._tagged(tg, val, cx)
         if tl:
+            return None
+        # the split points as a tuple / list of plain ints: tuple(S.tolist()), list(S), ...
+        v_ = val
+        for _ in range(3):
+            if isinstance(v_, ast.Call) and src(v_.func) in ('tuple', 'list') and \
+                    len(v_.args) == 1 and not v_.keywords:
+                v_ = v_.args[0]
+            elif isinstance(v_, ast.Call) and isinstance(v_.func, ast.Attribute) and \
+                    v_.func.attr == 'tolist' and not v_.args:
+                v_ = v_.func.value
+        if v_ is not val and isinstance(v_, ast.Name) and isinstance(tg, ast.Name) and \
+                isinstance(cx.env.get(v_.id), tuple) and cx.env[v_.id][0] == 'splits':
+            cx.env[tg.id] = cx.env[v_.id]
             return None
         if isinstance(val, ast.Call) and src(val.func) in ('np.linspace', 'numpy.linspace') and \
                 isinstance(tg, ast.Name) and len(val.args) >= 2:
